@@ -99,7 +99,8 @@ pub fn run_stack(
     let dl = expire_at.map(|_| instant_at(DL));
     let alg = seq.alg.to();
     let (or, nr) = (seq.or(), seq.nr());
-    with_lookups!(seq, oldc, newc, |o, n| {
+    // building the lookups is part of the judged code (IdentifyDistinct)
+    let r = guarded(|| with_lookups!(seq, oldc, newc, |o, n| {
         match stack {
             Stack::H => {
                 let mut h = RecHook::<true>::new(fail_at);
@@ -172,7 +173,11 @@ pub fn run_stack(
                 collect(d.into_inner().into_inner(), r)
             }
         }
-    })
+    }));
+    match r {
+        Ok(inner) => inner,
+        Err(m) => Err(m),
+    }
 }
 
 /// Expands every `Replace` into `Delete` + `Insert` (what a hook that does not
